@@ -223,3 +223,72 @@ pub fn move_text(m: &Move) -> String {
     };
     format!("{}{}{}", sq_name(m.from), sq_name(m.to), promo)
 }
+
+// ---------------------------------------------------------------------------------------------
+// Independent (harness-side) attack test on piece codes, used ONLY to keep positions in which the side
+// not to move is in check away from the engine (it would capture the king: panic or endless search).
+// It deliberately does not use the engine's own check test, so that a defect there cannot let such
+// positions through.  Never part of an oracle: TLC re-decides Valid for everything that is judged.
+// codes: 0 empty, 1..6 white P N B R Q K, 7..12 black.
+// ---------------------------------------------------------------------------------------------
+pub fn attacked_by(cs: &[i32], sq: usize, by_white: bool) -> bool {
+    let (f, r) = ((sq % 8) as i32, (sq / 8) as i32);
+    let on = |f: i32, r: i32| (0..8).contains(&f) && (0..8).contains(&r);
+    let at = |f: i32, r: i32| cs[(r * 8 + f) as usize];
+    let base = if by_white { 0 } else { 6 };
+    let pr = if by_white { r - 1 } else { r + 1 };
+    for df in [-1, 1] {
+        if on(f + df, pr) && at(f + df, pr) == base + 1 {
+            return true;
+        }
+    }
+    for (df, dr) in [(1, 2), (2, 1), (2, -1), (1, -2), (-1, -2), (-2, -1), (-2, 1), (-1, 2)] {
+        if on(f + df, r + dr) && at(f + df, r + dr) == base + 2 {
+            return true;
+        }
+    }
+    for (df, dr) in [(1, 0), (-1, 0), (0, 1), (0, -1), (1, 1), (1, -1), (-1, 1), (-1, -1)] {
+        if on(f + df, r + dr) && at(f + df, r + dr) == base + 6 {
+            return true;
+        }
+        let diag = df != 0 && dr != 0;
+        let (mut x, mut y) = (f + df, r + dr);
+        while on(x, y) {
+            let c = at(x, y);
+            if c != 0 {
+                if c == base + 5 || (diag && c == base + 3) || (!diag && c == base + 4) {
+                    return true;
+                }
+                break;
+            }
+            x += df;
+            y += dr;
+        }
+    }
+    false
+}
+
+/// one king each, kings not adjacent, no pawn on a back rank, the side NOT to move not in check
+pub fn playable(cs: &[i32], white_to_move: bool) -> bool {
+    let wk: Vec<usize> = (0..64).filter(|&s| cs[s] == 6).collect();
+    let bk: Vec<usize> = (0..64).filter(|&s| cs[s] == 12).collect();
+    if wk.len() != 1 || bk.len() != 1 {
+        return false;
+    }
+    if (0..8).chain(56..64).any(|s| cs[s] == 1 || cs[s] == 7) {
+        return false;
+    }
+    let (a, b) = (wk[0] as i32, bk[0] as i32);
+    if (a % 8 - b % 8).abs() <= 1 && (a / 8 - b / 8).abs() <= 1 {
+        return false;
+    }
+    if white_to_move {
+        !attacked_by(cs, bk[0], true)
+    } else {
+        !attacked_by(cs, wk[0], false)
+    }
+}
+
+pub fn playable_board(b: &Board) -> bool {
+    playable(&codes(b), b.active_color() == crate::pieces::Color::White)
+}
